@@ -309,3 +309,54 @@ def view : SPacket → View
 
 end SPacket
 end Spec
+
+namespace Spec
+open Mq (Bytes PropOcc encU16 encBin encVb)
+
+/-! ### the field map of a frame body (C09): the atomic fields in wire order with their lengths.
+A property section (property length and all properties) is listed as one field: every position
+strictly inside it — inside the length, between an identifier and its value, inside a value, but also
+between two properties — is an interior position. `false` marks the raw PUBLISH payload, which has
+no internal structure. -/
+def optLens (o : Option Bytes) : List (Nat × Bool) :=
+  match o with
+  | some u => [((encBin u).length, true)]
+  | none => []
+
+def willLens (will : Option SWill) : List (Nat × Bool) :=
+  match will with
+  | some w => [((propSection w.props).length, true), ((encBin w.topic).length, true), ((encBin w.payload).length, true)]
+  | none => []
+
+def SPacket.fieldLens : SPacket → List (Nat × Bool)
+  | .connect _ _ props clientID will username password =>
+    [((encBin [0x4d, 0x51, 0x54, 0x54]).length, true), (1, true), (1, true), (2, true),
+     ((propSection props).length, true), ((encBin clientID).length, true)]
+    ++ willLens will ++ optLens username ++ optLens password
+  | .connack _ _ props => [(1, true), (1, true), ((propSection props).length, true)]
+  | .publish _ qos _ topic _ props payload =>
+    [((encBin topic).length, true)] ++ (if qos = 0 then [] else [(2, true)])
+    ++ [((propSection props).length, true), (payload.length, false)]
+  | .ack _ _ form _ props =>
+    [(2, true)] ++ (match form with
+      | .bare => []
+      | .reason => [(1, true)]
+      | .full => [(1, true), ((propSection props).length, true)])
+  | .subscribe _ props filters =>
+    [(2, true), ((propSection props).length, true)] ++ filters.flatMap (fun f => [((encBin f.1).length, true), (1, true)])
+  | .suback _ _ props codes => [(2, true), ((propSection props).length, true)] ++ codes.map (fun _ => (1, true))
+  | .unsubscribe _ props filters =>
+    [(2, true), ((propSection props).length, true)] ++ filters.map (fun f => ((encBin f).length, true))
+  | .ping _ => []
+  | .disconnect form _ props | .auth form _ props =>
+    match form with
+    | .bare => []
+    | .reason => [(1, true)]
+    | .full => [(1, true), ((propSection props).length, true)]
+
+/-- `k` falls strictly inside a (non-exempt) field of the map -/
+def StrictlyInside (lens : List (Nat × Bool)) (k : Nat) : Prop :=
+  ∃ pre f post, lens = pre ++ f :: post ∧ f.2 = true
+    ∧ (pre.map (·.1)).sum < k ∧ k < (pre.map (·.1)).sum + f.1
+
+end Spec
